@@ -335,6 +335,23 @@ class Obj:
     def __repr__(self):
         return self.name
 
+    # scalar stand-ins that carry a payload (`_fde_payload`) are instances of the built-in type they wrap: they hash and compare by
+    # that value (as keys of a dict, members of a set, operands of == / in); every other object by identity
+    def __eq__(self, other):
+        if '_fde_payload' in self.f:
+            po = other.f['_fde_payload'] if isinstance(other, Obj) and '_fde_payload' in other.f else other
+            if not isinstance(po, (Obj, Opaque)):
+                return self.f['_fde_payload'] == po
+        return self is other
+
+    def __ne__(self, other):
+        return not self.__eq__(other)
+
+    def __hash__(self):
+        if '_fde_payload' in self.f:
+            return hash(self.f['_fde_payload'])
+        return id(self)
+
 
 class Ayns:
     def __init__(self, obj):
@@ -1674,6 +1691,14 @@ class FDE:
                         raise Unsupported('starmap over non-sequence elements')
                     yield self._apply(fn_, list(x_), {}, e)
             return star_() if lazy_ else list(star_())
+        if unparse(f) in ('itertools.count', 'count') and not (isinstance(f, ast.Name) and f.id in env) and len(args) <= 2 and not kwargs and all(isinstance(a_, int) and not isinstance(a_, bool) for a_ in args) \
+                and (fi is None or isinstance(f, ast.Attribute) or str(fi.module.imports.get(f.id, '')).startswith('itertools')):
+            def count_(start=0, step=1):
+                # itertools.count(): unbounded; a loop over it that has not left after 10000 rounds is beyond the evaluator
+                for i_ in range(10000):
+                    yield start + i_ * step
+                raise Unsupported('itertools.count() consumed beyond 10000 items')
+            return count_(*args)
         if unparse(f) in ('itertools.repeat', 'repeat') and not (isinstance(f, ast.Name) and f.id in env) and len(args) == 2 and not kwargs and isinstance(args[1], int) \
                 and not isinstance(args[1], bool) and (fi is None or isinstance(f, ast.Attribute) or str(fi.module.imports.get(f.id, '')).startswith('itertools')):
             return [args[0]] * max(args[1], 0)       # itertools.repeat(x, n): n times the same object
@@ -1772,7 +1797,38 @@ class FDE:
                         if len(args) > 2:
                             return args[2]
                         raise Raised('AttributeError')
+                if isinstance(o, Ayns) and isinstance(a, str):
+                    t_ = self.repo.resolve(o.obj.cls, a, ayns=True)
+                    if t_ is None:
+                        if len(args) > 2:
+                            return args[2]
+                        raise Raised('AttributeError')
+                    return self._attr(o, a, fi)        # a member of the node's namespace: the bound method / the value of the property
                 raise Unsupported('getattr on %r' % (o,))
+            if n == 'hash' and len(args) == 1 and n not in env:
+                v_ = args[0]
+                if isinstance(v_, Obj):
+                    if '_fde_payload' in v_.f:
+                        return hash(v_.f['_fde_payload'])
+                    mro_ = self.repo.mro(v_.cls) if v_.cls in self.repo.classes else []
+                    if 'dict' in mro_ or 'list' in mro_ or (v_.cls in self.repo.classes and any(self.repo.resolve(c_, '__eq__') is not None and self.repo.resolve(c_, '__hash__') is None for c_ in [v_.cls])):
+                        raise Raised('TypeError')       # unhashable: a list / dict node, or a class that defines __eq__ without __hash__
+                    return id(v_)
+                if v_ is None or isinstance(v_, (str, int, float, bytes, tuple, frozenset)):
+                    try:
+                        return hash(v_)
+                    except TypeError:
+                        raise Raised('TypeError')
+                if isinstance(v_, (list, dict, set)):
+                    raise Raised('TypeError')
+                raise Unsupported('hash(%r)' % (v_,))
+            if n == 'callable' and len(args) == 1 and n not in env:
+                v_ = args[0]
+                if isinstance(v_, Bound) or (isinstance(v_, tuple) and v_ and isinstance(v_[0], str) and v_[0] in ('class', 'closure', 'unbound', 'partial', 'dictmethod', 'listmethod', 'strmethod', 'builtinmethod', 'objdictmethod')):
+                    return True
+                if v_ is None or (isinstance(v_, (str, int, float, bytes, list, dict, set)) or (isinstance(v_, tuple) and not (v_ and isinstance(v_[0], str) and v_[0] in ('ext', 'kind')))):
+                    return False
+                raise Unsupported('callable(%r)' % (v_,))
             if n == 'isinstance':
                 o, c = args
                 cands = list(c) if isinstance(c, (tuple, list)) and c and isinstance(c[0], tuple) else [c]
